@@ -2,7 +2,7 @@ from run import Job
 
 MANIFEST = dict(
     category="other",
-    text="Label/index arithmetic of LDA prediction and multiclass statistics decided on the real function bodies for bounded concrete shapes, "
+    text="Class bookkeeping of LDA() (class numbering from 0 or 1, priors = class frequencies, class means taken over exactly the objects of the class) and label/index arithmetic of LDA prediction and multiclass statistics decided on the real function bodies for bounded concrete shapes, "
          "for labels numbered from 0 and from 1: every access in bounds, the returned label lies in the training label range and maximises the "
          "stored discriminant score, the per-class ROC/PR routines receive the one-vs-rest indicators of the true and of the predicted labels. "
          "Numerical kernels are oracle functions returning arbitrary recorded values, so the result holds for every value they could produce.",
@@ -11,7 +11,7 @@ MANIFEST = dict(
     technique="CBMC on the real LDAPrediction / LDAMulticlassStatistics bodies with oracle callees; postconditions as harness assertions; bounded shapes")
 
 META = dict(decided="in-bounds label/index arithmetic for 0- and 1-based labels, label range, arg-max, one-vs-rest wiring of the ROC/PR calls",
-            not_decided="priors/means values, affine invariance, perfect separation, AUC = 1 (numerical)",
+            not_decided="numerical values of the class means, priors summing to 1 in floating point, affine invariance, perfect separation, AUC = 1 (numerical)",
             trusted_base=["oracle callees in harness/C08/lda_labels.c"], assumptions=["discriminant scores are not NaN"])
 
 SRCS = ["matrix.c", "vector.c", "memwrapper.c", "numeric.c", "tensor.c", "list.c", "statistic.c", "algebra.c", "preprocessing.c", "metricspace.c", "pca.c"]
@@ -34,4 +34,11 @@ def jobs(tier):
                      unwind=max(nobj, ncl) + 3, functions=["LDAMulticlassStatistics", "getNClasses"],
                      bound="concrete sizes %s; labels symbolic in [0,ncl)" % tag,
                      clause="per-class ROC/PR receive one-vs-rest indicators of true and predicted labels; one AUC per class"))
+    for (lab, n, nf) in ([("{0,1,0,1}", 4, 2), ("{1,2,2,1,2}", 5, 2), ("{2,1,3,1}", 4, 1), ("{0,0,1}", 3, 2)] if tier == "quick" else
+                         [("{0,1,0,1}", 4, 2), ("{1,2,2,1,2}", 5, 2), ("{2,1,3,1}", 4, 1), ("{0,0,1}", 3, 2), ("{1,1,2,3,3}", 5, 3), ("{0,2,1,0,2,1}", 6, 2)]):
+        d = {"VC_NOBJ": n, "VC_NF": nf, "VC_LAB": lab}
+        tag = "labels=%s,nf=%d" % (lab.replace(",", ""), nf)
+        J.append(Job("LDA_bookkeeping@" + tag, "C08/lda_fit.c", entry="h_LDA_bookkeeping", srcs=SRCS, kind="bounded", defines=d, unwind=n + 4, timeout=900, object_bits=12,
+                     cbmc_flags=["--slice-formula"], functions=["LDA"], bound="labels %s, %d features; features symbolic, numerical callees oracles" % (lab, nf),
+                     clause="LDA(): class numbering, class-id grouping, priors = class frequencies, class means = per-class averages (operands), table shapes"))
     return J
